@@ -995,6 +995,11 @@ class Interp:
                     raise Unsupported(f"module {obj.name} has no {name}")
             return self.external_attr(obj.name, name)
         if isinstance(obj, VClass):
+            if isinstance(obj.info, ClassInfo) and any(str(b).split(".")[-1] in ("Enum", "IntEnum", "Flag")
+                                                       for b in obj.info.mro() if not isinstance(b, ClassInfo)) \
+                    and name in obj.info.attrs:
+                # enum members are distinct named constants
+                return VStr(f"{obj.info.name}.{name}")
             if isinstance(obj.info, ClassInfo):
                 owner, found = obj.info.find_method(name)
                 if found is None:
